@@ -215,24 +215,31 @@ fn c01_q_breakpad_info_and_memory_read() {
     }
 }
 
-/// M: 30
 /// F: MinidumpMiscInfo::read (size-variant selection), process_create_time
-/// I: 48 stream bytes symbolic, length 0..=48, byte order
-/// B: streams <= 48 bytes (MINIDUMP_MISC_INFO and _2; the larger variants are thorough-tier)
-/// O: never panics; Ok iff the stream holds at least the 24-byte base struct
+/// I: stream bytes symbolic; stream length fixed per block: 23, 24, 43, 44 (just below / at the first two variants' sizes)
+/// B: streams of 23-44 bytes (a symbolic length up to 48 does not finish; the larger variants 232/832/1364 are not decided)
+/// O: never panics; Ok iff the stream holds at least the 24-byte base struct; the variant chosen is the largest that fits
 #[kani::proof]
 #[kani::unwind(20)]
 #[kani::stub(alloc::fmt::format, stub_format)]
-fn c01_t_misc_info_read() {
-    let b: [u8; 48] = kani::any();
-    let len: usize = kani::any();
-    kani::assume(len <= 48);
-    let r = minidump::MinidumpMiscInfo::read(&b[..len], &b[..len], any_endian(), None);
-    assert!(r.is_ok() == (len >= 24));
-    if let Ok(m) = r {
+fn c01_q_misc_info_read() {
+    let b: [u8; 44] = kani::any();
+    let e = any_endian();
+    let r23 = minidump::MinidumpMiscInfo::read(&b[..23], &b[..23], e, None);
+    assert!(r23.is_err());
+    std::mem::forget(r23);
+    let r24 = minidump::MinidumpMiscInfo::read(&b[..24], &b[..24], e, None);
+    assert!(matches!(r24.as_ref().map(|m| &m.raw), Ok(minidump::RawMiscInfo::MiscInfo(_))));
+    if let Ok(m) = &r24 {
         let _ = m.process_create_time();
-        std::mem::forget(m);
     }
+    std::mem::forget(r24);
+    let r43 = minidump::MinidumpMiscInfo::read(&b[..43], &b[..43], e, None);
+    assert!(matches!(r43.as_ref().map(|m| &m.raw), Ok(minidump::RawMiscInfo::MiscInfo(_))));
+    std::mem::forget(r43);
+    let r44 = minidump::MinidumpMiscInfo::read(&b, &b, e, None);
+    assert!(matches!(r44.as_ref().map(|m| &m.raw), Ok(minidump::RawMiscInfo::MiscInfo2(_))));
+    std::mem::forget(r44);
 }
 
 #[path = "../playback/c01_streams.rs"]
